@@ -80,6 +80,14 @@ func NewClient(krb5Cl *client.Client, httpCl *http.Client, spn string) *Client {
 
 // Do is the SPNEGO enabled HTTP client's equivalent of the http.Client's Do method.
 func (c *Client) Do(req *http.Request) (resp *http.Response, err error) {
+	return c.do(req, 0)
+}
+
+// maxNegotiateAttempts is the number of times one call of Do answers a Negotiate challenge before it hands the 401
+// response to the caller.
+const maxNegotiateAttempts = 2
+
+func (c *Client) do(req *http.Request, attempts int) (resp *http.Response, err error) {
 	var body []byte
 	if req.Body != nil {
 		// Read the whole body up front so that it can be sent again in full if the request has to be repeated.
@@ -105,12 +113,16 @@ func (c *Client) Do(req *http.Request) (resp *http.Response, err error) {
 					// Refresh the body reader so the body can be sent again
 					e.reqTarget.Body = io.NopCloser(bytes.NewReader(body))
 				}
-				return c.Do(e.reqTarget)
+				return c.do(e.reqTarget, attempts)
 			}
 		}
 		return resp, err
 	}
 	if respUnauthorizedNegotiate(resp) {
+		if attempts >= maxNegotiateAttempts {
+			// The server keeps challenging requests that carry a token: give its response to the caller.
+			return resp, err
+		}
 		err := SetSPNEGOHeader(c.krb5Client, req, c.spn)
 		if err != nil {
 			return resp, err
@@ -121,7 +133,7 @@ func (c *Client) Do(req *http.Request) (resp *http.Response, err error) {
 		}
 		io.Copy(io.Discard, resp.Body)
 		resp.Body.Close()
-		return c.Do(req)
+		return c.do(req, attempts+1)
 	}
 	return resp, err
 }
